@@ -1311,7 +1311,7 @@ class Threshold(Metric):
     name = "Threshold"
     description = "Mean value of threshold forecast. Use -r to set threshold."
     min = 0
-    require_threshold_type = "thresholds"
+    require_threshold_type = "threshold"
     supports_threshold = True
 
     def compute_single(self, data, input_index, axis, axis_index, interval):
